@@ -312,6 +312,24 @@ type rangeIter struct {
 
 func (x *Exec) rangeStart(st *State, i *ssa.Range) {
 	x.regs[i] = rangeIter{x.val(st, i.X), i.X.Type(), i}
+	if isString(i.X.Type()) {
+		// the byte index of the previous iteration of this range-over-string loop: -1 before the first.
+		// Contracts name it rangeposK (K-th range-over-string loop of the function, in source order).
+		st.ghost[rangePosName(i)] = x.c.Int(-1)
+	}
+}
+
+// rangePosName: "rangeposK" for the K-th range-over-string statement of the function (source order).
+func rangePosName(r *ssa.Range) string {
+	k := 1
+	for _, b := range r.Parent().Blocks {
+		for _, in := range b.Instrs {
+			if o, ok := in.(*ssa.Range); ok && o != r && isString(o.X.Type()) && o.Pos() < r.Pos() {
+				k++
+			}
+		}
+	}
+	return fmt.Sprintf("rangepos%d", k)
 }
 
 func (x *Exec) rangeNext(st *State, i *ssa.Next) {
@@ -328,7 +346,22 @@ func (x *Exec) rangeNext(st *State, i *ssa.Next) {
 		// ASCII byte at the index decodes to itself
 		b := c.Select(x.strContent(s.Ref), c.Add(s.Off, idx))
 		x.hyps = append(x.hyps, c.Implies(c.And(ok, c.Lt(b, c.Int(128))), c.Eq(r, b)))
-		x.ledger["range over string: index is some in-range offset, rune unconstrained for non-ASCII (order and boundaries not modelled)"] = true
+		// indexes increase: the first is 0, each next one lies 1 to 4 bytes after the previous one, and the
+		// loop ends only when fewer than 1..4 bytes are left after the previous index
+		if it.instr != nil {
+			name := rangePosName(it.instr)
+			if prev, has := st.ghost[name]; has {
+				x.hyps = append(x.hyps, c.Implies(st.reach, c.Implies(ok, c.And(c.Lt(prev, idx), c.Le(idx, c.Add(prev, c.Int(4))), c.Implies(c.Eq(prev, c.Int(-1)), c.Eq(idx, c.Int(0)))))))
+				x.hyps = append(x.hyps, c.Implies(st.reach, c.Implies(c.Not(ok), c.And(c.Lt(prev, s.Len), c.Le(s.Len, c.Add(prev, c.Int(4))), c.Implies(c.Eq(prev, c.Int(-1)), c.Eq(s.Len, c.Int(0)))))))
+				// an ASCII byte is a whole character: the next index is the one after it
+				pb := c.Select(x.strContent(s.Ref), c.Add(s.Off, prev))
+				ascii := c.And(c.Le(c.Int(0), prev), c.Lt(pb, c.Int(128)))
+				x.hyps = append(x.hyps, c.Implies(st.reach, c.Implies(c.And(ok, ascii), c.Eq(idx, c.Add(prev, c.Int(1))))))
+				x.hyps = append(x.hyps, c.Implies(st.reach, c.Implies(c.And(c.Not(ok), ascii), c.Eq(s.Len, c.Add(prev, c.Int(1))))))
+				st.ghost[name] = c.Ite(ok, idx, prev)
+			}
+		}
+		x.ledger["range over string: indexes increase by 1 to 4 bytes from 0 to the end; the rune is unconstrained for non-ASCII bytes (UTF-8 boundaries not modelled)"] = true
 		x.regs[i] = TupleV{E: []Value{Sc{ok}, Sc{idx}, Sc{r}}}
 		return
 	}
